@@ -38,7 +38,7 @@ func (it *Interp) readInt(c *Cell) (*Term, bool) {
 		}
 		ws = append(ws, t)
 	}
-	return LiftLimbs(ws), true
+	return ExpandWords(LiftLimbs(ws)), true
 }
 
 // provenBelow reports whether 0 <= t < m on every assignment of its predicate atoms.
@@ -368,4 +368,60 @@ func DigitBasis(want, coef *Term) *Term {
 		return want
 	}
 	return sub.Term(want)
+}
+
+// ExpandWords rewrites the word results of hand-written limb arithmetic by their defining identities,
+//
+//	mul64.lo(a, k)     = a·k − 2^64·mul64.hi(a, k)              (k a constant)
+//	add64.sum(a, b, c) = a + b + c − 2^64·carry(a, b, c)
+//
+// recursively, so that an integer recomposed from such words (Σ w_i·2^(64i)) telescopes: the atoms for high words and
+// carries cancel when the code is a correct multi-word product or sum, and what is left is the exact integer.
+func ExpandWords(t *Term) *Term {
+	bind := map[*IAtom]*Term{}
+	seen := map[*IAtom]bool{}
+	var scanT func(t *Term)
+	scanA := func(a *IAtom) {
+		if seen[a] {
+			return
+		}
+		seen[a] = true
+		if a.Kind != IWOp {
+			return
+		}
+		for _, x := range a.Args {
+			scanT(x)
+		}
+		switch a.Op {
+		case "add64.sum":
+			if len(a.Args) == 3 {
+				carry := BIT(WOp(64, "add64.carry", a.Args[0], a.Args[1], a.Args[2]), 0)
+				bind[a] = a.Args[0].Add(a.Args[1]).Add(a.Args[2]).Sub(carry.Scale(pow2(64)))
+			}
+		case "mul64.lo":
+			if len(a.Args) == 2 {
+				x, k := a.Args[0], a.Args[1]
+				if _, isC := x.IsConst(); isC {
+					x, k = k, x
+				}
+				if kc, isC := k.IsConst(); isC {
+					bind[a] = x.Scale(kc).Sub(WOp(64, "mul64.hi", a.Args[0], a.Args[1]).Scale(pow2(64)))
+				}
+			}
+		}
+	}
+	scanT = func(t *Term) {
+		for _, m := range t.mons {
+			if m.atom != nil {
+				scanA(m.atom)
+			}
+		}
+	}
+	scanT(t)
+	if len(bind) == 0 {
+		return t
+	}
+	s := NewSubst(nil, false)
+	s.IBind = bind
+	return s.Term(t)
 }
